@@ -370,6 +370,197 @@ theorem table_roundtrip_tab (cols : List Bytes) (hcols : ∀ n ∈ cols, ColOK n
       intro x hx
       exact inferCell_expected x (hc x (by simp [hx]))
 
+/-- exchange `.` and `,` -/
+def swapDC (c : UInt8) : UInt8 := if c = 46 then 44 else if c = 44 then 46 else c
+
+theorem isDigit_swap : (isDigit ∘ swapDC) = isDigit := by
+  funext c
+  simp only [Function.comp, swapDC]
+  split
+  · rename_i h; subst h; decide
+  · split
+    · rename_i h; subst h; decide
+    · rfl
+
+theorem swap_eq_iff (c x : UInt8) (hx : x ≠ 44) (hx' : x ≠ 46) : swapDC c = x ↔ c = x := by
+  unfold swapDC
+  split
+  · rename_i h; subst h; constructor <;> intro e
+    · exact absurd e.symm hx
+    · exact absurd e.symm hx'
+  · split
+    · rename_i h; subst h; constructor <;> intro e
+      · exact absurd e.symm hx'
+      · exact absurd e.symm hx
+    · rfl
+
+theorem swap_eq_44 (c : UInt8) : swapDC c = 44 ↔ c = 46 := by
+  unfold swapDC
+  split
+  · rename_i h; simp [h]
+  · rename_i h
+    split
+    · rename_i h2; subst h2; simp
+    · rename_i h2; simp [h, h2]
+
+theorem skipMinus_swap (l : Bytes) : skipMinus (l.map swapDC) = (skipMinus l).map swapDC := by
+  cases l with
+  | nil => rfl
+  | cons c t =>
+    by_cases h : c = 45
+    · subst h; rfl
+    · have h' : swapDC c ≠ 45 := fun e => h ((swap_eq_iff c 45 (by decide) (by decide)).mp e)
+      have e1 : skipMinus (c :: t) = c :: t := by
+        unfold skipMinus; split
+        · rename_i heq; simp at heq; exact absurd heq.1 h
+        · rfl
+      have e2 : skipMinus (swapDC c :: t.map swapDC) = swapDC c :: t.map swapDC := by
+        unfold skipMinus; split
+        · rename_i heq; simp at heq; exact absurd heq.1 h'
+        · rfl
+      rw [List.map_cons, e2, e1, List.map_cons]
+
+theorem skipSign_swap (l : Bytes) : skipSign (l.map swapDC) = (skipSign l).map swapDC := by
+  cases l with
+  | nil => rfl
+  | cons c t =>
+    by_cases h : c = 43
+    · subst h; rfl
+    · by_cases g : c = 45
+      · subst g; rfl
+      · have h' : swapDC c ≠ 43 := fun e => h ((swap_eq_iff c 43 (by decide) (by decide)).mp e)
+        have g' : swapDC c ≠ 45 := fun e => g ((swap_eq_iff c 45 (by decide) (by decide)).mp e)
+        have e1 : skipSign (c :: t) = c :: t := by
+          unfold skipSign; split
+          · rename_i heq; simp at heq; exact absurd heq.1 h
+          · rename_i heq; simp at heq; exact absurd heq.1 g
+          · rfl
+        have e2 : skipSign (swapDC c :: t.map swapDC) = swapDC c :: t.map swapDC := by
+          unfold skipSign; split
+          · rename_i heq; simp at heq; exact absurd heq.1 h'
+          · rename_i heq; simp at heq; exact absurd heq.1 g'
+          · rfl
+        rw [List.map_cons, e2, e1, List.map_cons]
+
+theorem isNumberExp_swap (l : Bytes) : isNumberExp (l.map swapDC) = isNumberExp l := by
+  cases l with
+  | nil => rfl
+  | cons c t =>
+    have h1 : (swapDC c = 101) = (c = 101) := propext (swap_eq_iff c 101 (by decide) (by decide))
+    have h2 : (swapDC c = 69) = (c = 69) := propext (swap_eq_iff c 69 (by decide) (by decide))
+    simp only [List.map_cons, isNumberExp, h1, h2, skipSign_swap, List.isEmpty_map, List.all_map, isDigit_swap]
+
+theorem isNumber_swap (l : Bytes) : isNumber 44 (l.map swapDC) = isNumber 46 l := by
+  unfold isNumber
+  simp only [skipMinus_swap, List.takeWhile_map, List.dropWhile_map, isDigit_swap, List.length_map]
+  cases (skipMinus l).dropWhile isDigit with
+  | nil => rfl
+  | cons c t =>
+    have h1 : (swapDC c = 44) = (c = 46) := propext (swap_eq_44 c)
+    simp only [List.map_cons, h1, List.takeWhile_map, List.dropWhile_map, isDigit_swap, List.length_map,
+      isNumberExp_swap]
+    rw [← List.map_cons, isNumberExp_swap]
+
+/-- `value.replaceme('.', ',')` -/
+def locComma (l : Bytes) : Bytes := l.map (fun c => if c = 46 then 44 else c)
+
+theorem locComma_eq_swap (l : Bytes) (h : 44 ∉ l) : locComma l = l.map swapDC := by
+  unfold locComma
+  apply List.map_congr_left
+  intro c hc
+  have : c ≠ 44 := fun e => h (e ▸ hc)
+  simp [swapDC, this]
+
+theorem not_mem_locComma (l : Bytes) (x : UInt8) (hx : x ∉ l) (h44 : x ≠ 44) : x ∉ locComma l := by
+  intro hm
+  obtain ⟨c, hc, e⟩ := List.mem_map.mp hm
+  by_cases h : c = 46
+  · simp [h] at e; exact h44 e.symm
+  · simp [h] at e; subst e; exact hx hc
+
+theorem numText_no (n : C18Spec.Num) (hn : n.WF) :
+    44 ∉ n.text ∧ 34 ∉ n.text ∧ 59 ∉ n.text ∧ 0 ∉ n.text ∧ 10 ∉ n.text ∧ 13 ∉ n.text ∧ 0xEF ∉ n.text :=
+  ⟨fun hc => (numByte_ne 44 (numText_bytes n hn 44 hc)).2.2.2.1 rfl,
+   fun hc => (numByte_ne 34 (numText_bytes n hn 34 hc)).2.2.1 rfl,
+   fun hc => numByte_ne59 59 (numText_bytes n hn 59 hc) rfl,
+   fun hc => (numByte_ne 0 (numText_bytes n hn 0 hc)).2.2.2.2.2 rfl,
+   fun hc => (numByte_ne 10 (numText_bytes n hn 10 hc)).1 rfl,
+   fun hc => (numByte_ne 13 (numText_bytes n hn 13 hc)).2.1 rfl,
+   fun hc => (numByte_ne 0xEF (numText_bytes n hn 0xEF hc)).2.2.2.2.1 rfl⟩
+
+theorem localize_comma_num (l : Bytes) : localize 44 (.num l) = .num (locComma l) := by
+  simp [localize, locComma]
+
+theorem localize_comma_str (s : Bytes) : localize 44 (.str s) = .str s := rfl
+
+/-- a cell of a `;` table written with the decimal comma -/
+theorem cellOK_comma (c : Cell) (h : CellWFsemi c) : CellOK 59 (localize 44 c) := by
+  cases c with
+  | str s => exact cellWFsemi_ok _ h
+  | num l =>
+    obtain ⟨n, hn, rfl⟩ := h
+    obtain ⟨_, h34, h59, h0, h10, h13, _⟩ := numText_no n hn
+    rw [localize_comma_num]
+    exact ⟨not_mem_locComma _ 34 h34 (by decide), not_mem_locComma _ 59 h59 (by decide),
+      not_mem_locComma _ 0 h0 (by decide), not_mem_locComma _ 10 h10 (by decide), not_mem_locComma _ 13 h13 (by decide)⟩
+
+/-- a number written with the decimal comma is read, untyped, as the number written -/
+theorem inferCell_comma (c : Cell) (h : CellWFsemi c) : inferCell 44 (cellText (localize 44 c)) = expected c := by
+  cases c with
+  | str s => exact inferCell_semi _ h
+  | num l =>
+    obtain ⟨n, hn, rfl⟩ := h
+    obtain ⟨h44, _⟩ := numText_no n hn
+    rw [localize_comma_num]
+    have hnum : isNumber 44 (locComma n.text) = true := by
+      rw [locComma_eq_swap _ h44, isNumber_swap, isNumber_text n hn]
+    have hback : (locComma n.text).map (fun c => if c = 44 then 46 else c) = n.text := unloc_loc 44 n.text h44
+    simp [inferCell, cellText, expected, hnum, hback]
+
+theorem head_comma (c : Cell) (h : CellWFsemi c) : (cellText (localize 44 c)).head? ≠ some 0xEF := by
+  cases c with
+  | str s => exact cellWFsemi_head _ h
+  | num l =>
+    obtain ⟨n, hn, rfl⟩ := h
+    obtain ⟨_, _, _, _, _, _, hEF⟩ := numText_no n hn
+    rw [localize_comma_num]
+    intro e
+    exact not_mem_locComma _ 0xEF hEF (by decide) (List.mem_of_mem_head? e)
+
+/-- untyped reading of a whole table written after `setSeparator(';')`, `setDecimal(',')` -/
+theorem table_roundtrip_comma (cols : List Bytes) (hcols : ∀ n ∈ cols, ColOK n) (h2 : 2 ≤ cols.length)
+    (rows : List (List Cell)) (hrows : ∀ r ∈ rows, r.length = cols.length ∧ ∀ c ∈ r, CellWFsemi c) :
+    readTableT [] (writeItemsG 59 44 cols (rows.flatten.map .cell)) =
+      { columns := cols, rows := rows.map (·.map expected) } := by
+  have hne : cols ≠ [] := by intro e; subst e; simp at h2
+  apply table_roundtrip_sep 59 (Or.inr (Or.inl rfl)) 44 [] cols hne hcols (Or.inr h2)
+  intro r hr
+  obtain ⟨hl, hc⟩ := hrows r hr
+  cases r with
+  | nil => simp at hl; omega
+  | cons c t =>
+    have hok : ∀ x ∈ (c :: t).map (localize 44), CellOK 59 x := by
+      intro x hx
+      obtain ⟨y, hy, rfl⟩ := List.mem_map.mp hx
+      exact cellOK_comma y (hc y hy)
+    refine ⟨hl, fun x hx => localize_ne_newline 59 44 x (cellOK_comma x (hc x hx)), ?_, ?_, ?_⟩
+    · unfold rowTextG
+      exact clean_writeRow_ok 59 (by decide) (by decide) _ hok
+    · unfold rowTextG
+      rw [List.map_cons]
+      exact writeRow_head_ne 59 (by decide) _ _ (head_comma c (hc c (by simp)))
+    · rw [typedRow_nil]
+      unfold rowTextG
+      rw [List.map_cons, parseRow_writeRow 59 (by decide) (localize 44 c) (t.map (localize 44))
+        (hok _ (by simp)) (fun x hx => hok x (by simp at hx ⊢; exact Or.inr hx))]
+      have hsd : sniffDec 59 = 44 := rfl
+      simp only [List.map_cons, List.map_map, hsd]
+      rw [inferCell_comma c (hc c (by simp))]
+      congr 1
+      apply List.map_congr_left
+      intro x hx
+      exact inferCell_comma x (hc x (by simp [hx]))
+
 theorem readRowsT_nil (sep dec : UInt8) (fuel : Nat) (f : RFile) (started : Bool) :
     readRowsT [] sep dec fuel f started = readRows sep dec fuel f started := by
   induction fuel generalizing f started with
